@@ -46,6 +46,13 @@ struct FromImage {};
 // allocator instance of the object whose operation is running (for adapters that build temporary operands)
 inline int& cur_inst() { static int i = 1; return i; }
 
+// merge by reference: alternately through a NON-const and a const lvalue (a forwarding-reference merge instantiates differently
+// for the two, and neither may touch its source)
+template<class S> inline void merge_lvalue(S& s, S& o) {
+  static unsigned n = 0;
+  if (++n % 2) s.merge(o); else s.merge(const_cast<const S&>(o));
+}
+
 // F: struct with  S (sketch type), make(inst, w) -> S, update(S&, w), merge(S&, S&, bool), query(S&, w),
 //    image(const S&) -> std::string, deser(const std::string&, inst) -> S, trim(S&), reset(S&)
 template<class F> struct ObjT : AnyObj {
